@@ -208,8 +208,33 @@ def gen_units(repo):
     return "\n".join(out) + "\n"
 
 
+def gen_fileconsts(repo):
+    d = run_probe("probe_file.py", repo)
+    out = []
+    w = out.append
+    w("(* GENERATED by harness/translate.py from nixio/file.py -- do not edit *)")
+    w("(* source sha256: %s *)" % digest(repo, ["nixio/file.py"]))
+    w("From NixV Require Import Base.Prelude.")
+    ver = d["HDF_FF_VERSION"]
+    if len(ver) != 3:
+        raise TranslateError("HDF_FF_VERSION is not a triple: %r" % (ver,))
+    w("Definition lib_version : list Z := %s." % clist([cZ(v) for v in ver], "Z"))
+    w("Definition file_format : str := %s." % cstr(d["FILE_FORMAT"]))
+    cmps = d["check_header_tuple_compares"]
+    if len(cmps) != 1 or cmps[0]["left"] != "self.version" or cmps[0]["op"] != "GtE":
+        raise TranslateError("_check_header: expected exactly one `self.version >= (..)` test, found %r" % (cmps,))
+    w("(* from this format version on, a file must carry a valid id *)")
+    w("Definition id_required_from : list Z := %s." % clist([cZ(v) for v in cmps[0]["tuple"]], "Z"))
+    m = d["modes"]
+    w("Definition mode_letters : list (str * str) := [(%s, %s); (%s, %s); (%s, %s)]." % (
+        cstr("ReadOnly"), cstr(m["ReadOnly"]), cstr("ReadWrite"), cstr(m["ReadWrite"]),
+        cstr("Overwrite"), cstr(m["Overwrite"])))
+    return "\n".join(out) + "\n"
+
+
 SECTIONS = {
     "Units": gen_units,
+    "FileConsts": gen_fileconsts,
 }
 
 
